@@ -601,10 +601,15 @@ def run(tier, seed):
     thorough = tier == "thorough"
     r = tlc.run("MCAuthority", "Authority_fixed.cfg", workers=6, timeout=900)
     v.add_tlc(r, "Authority, cleanup rename atomic with its check (3 contenders, 6 leftover states, releases, deadline at any retry): "
-                 "AtMostOne, NeverStealLive, HolderOwnsLock, LiveResidentKept, Usable")
+                 "AtMostOne, NeverStealLive, HolderOwnsLock, ServingOwnsLock, AtMostOneActing, LiveResidentKept, Usable")
     if not r.ok:
         log(r.out[-3000:])
         die_tool("Authority (atomic cleanup) violates its properties: specification error")
+    r = tlc.run("MCAuthority", "Authority_dropfirst.cfg", workers=4, timeout=600)
+    v.add_tlc(r, "Authority with the files dropped at the shutdown signal and requests in flight served afterwards: counterexample to AtMostOneActing expected (non-vacuity of the shutdown family)")
+    v.cov["drop_before_drain_counterexample"] = "AtMostOneActing" in r.violated
+    if "AtMostOneActing" not in r.violated:
+        die_tool("Authority_dropfirst: expected counterexample to AtMostOneActing not found")
     r = tlc.run("MCAuthority", "Authority_wedge.cfg", workers=6, timeout=900)
     v.add_tlc(r, "Authority with the pinned commit's corrupt cleanup (gives up whenever meta.json exists): counterexample to Usable expected (fixed, 3036fd1)")
     v.cov["wedge_counterexample"] = bool(r.violated)
